@@ -43,6 +43,14 @@ P = {
         "components": comp(real=["eventbus fan-out, FilterChannel/RegexFilterFunc, TokenChannel, Run() channel/filter wiring", "redis service (event source)"], stub=["stub service that hands the bus handle to the harness"]),
         "assumptions": ["a missing or non-string category/service is matched as the empty string", "an empty expression list admits everything, like an absent one"],
     },
+    "C07": {
+        "runs": {"quick": 3000, "thorough": 300000},
+        "budget_s": {"quick": 150, "thorough": 3000},
+        "rule": "one scenario = the real file channel (max size 1024/4096/1 MiB) behind the real Run() wiring on a fresh temp dir, 1-3 interleaved sender actors whose line lengths are steered around the rotation boundary (incl. single lines larger than the limit and 500 KiB bursts), fake-clock gaps of 0/10 ms/999 ms/1 s/1.001 s/5 s between sends, optionally external removal/rename of the active file or of the directory, or an unwritable destination; distinct = distinct trace digest; non-trivial = at least one rotation happened",
+        "components": comp(real=["pushers/file FileBackend + rotateFile on a real temp dir", "Run() channel/filter wiring, token decoration"], stub=["stub service handing the bus handle to the harness"], simulated=["external filesystem actor (remove/rename/rmdir)"]),
+        "assumptions": ["power loss / torn writes are not simulated (the property speaks of flush interval, not crashes)", "after an external fault, events sent up to 2 s after it may be missing; everything later must be logged"],
+        "stall_s": 120,
+    },
 }
 
 def get(prop):
